@@ -50,15 +50,72 @@ def pending(ctx, sess):
     return ctx.tobytes(copy.deepcopy(sess).data_to_send())
 
 
+_ROLES = {}
+
+
+def roles(ctx, side):
+    """names of the private bookkeeping attributes, found by what they DO on a scratch session
+    (a rename must not break the harness): the two sets that receive a search's id / only one of
+    which receives another request's id, and the client's int that goes 1 -> 2 with a request"""
+    key = (id(ctx.L), side)
+    if key in _ROLES:
+        return _ROLES[key]
+    S, M, F = ctx.L.session, ctx.L.messages, ctx.L.filter
+    p = po(ctx)
+    a = S.LDAPClient() if side == "client" else S.LDAPServer()
+    before = {k: v for k, v in vars(a).items() if isinstance(v, int) and not isinstance(v, bool)}
+    if side == "client":
+        i1 = a.search_request("dc=x")
+        i2 = a.extended_request("1.2")
+    else:
+        i1, i2 = 3, 5
+        a.receive(M.SearchRequest(i1, [], "", M.SearchScope.BASE, M.DereferencingPolicy.NEVER, 0, 0, False, F.FilterPresent("o"), []).pack(p))
+        a.receive(M.ExtendedRequest(i2, [], "1.2", None).pack(p))
+    sets = {k: v for k, v in vars(a).items() if hasattr(v, "__contains__") and hasattr(v, "__iter__") and not isinstance(v, (str, bytes, bytearray, dict, list, tuple))}
+    out = [k for k, v in sets.items() if sorted(v) == sorted([i1, i2])]
+    srch = [k for k, v in sets.items() if sorted(v) == [i1]]
+    ctr = [k for k, v in vars(a).items() if k in before and before[k] == 1 and v == 3] if side == "client" else [None]
+    if len(out) != 1 or len(srch) != 1 or len(ctr) != 1:
+        raise RuntimeError(f"harness: cannot identify the session's bookkeeping attributes (outstanding={out}, searches={srch}, counter={ctr}); the representation the inductive step injects is not there")
+    _ROLES[key] = (out[0], srch[0], ctr[0])
+    return _ROLES[key]
+
+
+_RESIDUE = {}
+
+
+def residue_attr(ctx, side):
+    """name of the attribute that holds the not-yet-parsed tail of the input (None when it cannot be
+    identified: the residue is then not compared, only what the sessions do)"""
+    key = (id(ctx.L), side)
+    if key not in _RESIDUE:
+        S = ctx.L.session
+        a = S.LDAPClient() if side == "client" else S.LDAPServer()
+        probe = bytes([0x30, 0x05, 0x02])
+        a.receive(probe)
+        found = []
+        for k, v in vars(a).items():
+            if isinstance(v, (str, int, set, dict)) or v is None:
+                continue
+            try:
+                if bytes(ctx.tobytes(v)) == probe:
+                    found.append(k)
+            except Exception:  # noqa: BLE001
+                continue
+        _RESIDUE[key] = found[0] if len(found) == 1 else None
+    return _RESIDUE[key]
+
+
 def read(ctx, sess, side):
+    o, sr, c = roles(ctx, side)
     st = {
         "state": sess.state.name,
-        "O": members(sess._outstanding_requests),
-        "S": members(sess._search_requests),
+        "O": members(getattr(sess, o)),
+        "S": members(getattr(sess, sr)),
         "out": pending(ctx, sess),
     }
     if side == "client":
-        st["c"] = sess._message_counter
+        st["c"] = getattr(sess, c)
     return st
 
 
@@ -116,11 +173,12 @@ def make_pre(ctx, side, pshape, tag="pre"):
         from sx import values as V
 
         sess = S.LDAPClient() if side == "client" else S.LDAPServer()
+        o_name, s_name, c_name = roles(ctx, side)
         sess.state = getattr(S.SessionState, state)
-        sess._outstanding_requests = V.SSet(ids)
-        sess._search_requests = V.SSet([ids[i] for i in searches] + stale)
+        setattr(sess, o_name, V.SSet(ids))
+        setattr(sess, s_name, V.SSet([ids[i] for i in searches] + stale))
         if side == "client":
-            sess._message_counter = c
+            setattr(sess, c_name, c)
         return sess
     if side == "client":
         sess = reach_client(ctx, state, ids, [ids[i] for i in searches], c)
